@@ -555,7 +555,10 @@ def _to_shape_list(region_list, coordinate_system='fk5'):
         meta.update(region.visual)
 
         if reg_type == 'text':
-            meta['text'] = meta.get('text', meta.pop('label', ''))
+            # the string of a text region is its "text" parameter (which
+            # is also what the reader stores as the region's label)
+            meta.pop('label', None)
+            meta['text'] = region.text
 
         include = region.meta.get('include', True)
 
